@@ -221,9 +221,9 @@ static const scen_t scen[] = {
         { {O_READY,0,0}, {O_POLL,0,0}, E },
         { {O_DONE_ACTION,0,0}, {O_POLL,0,0}, E },
         { {O_DONE_TASK,0,0}, E } } },
-    /* set_nb_tasks by the owner of all tasks (0 -> 2 -> 0) who keeps an action until after ready(); another action is released concurrently */
+    /* set_nb_tasks by the owner of all tasks (0 -> 1 -> 0) who keeps an action until after ready(); another action is released concurrently */
     { "set_nb_tasks_holding_action", 0, {0,0,0}, {1,1,0}, 3, {
-        { {O_SET_TASKS,2,0}, {O_READY,0,0}, {O_DONE_ACTION,0,0}, {O_SET_TASKS0,0,0}, E },
+        { {O_SET_TASKS,1,0}, {O_READY,0,0}, {O_DONE_ACTION,0,0}, {O_SET_TASKS0,0,0}, E },
         { {O_DONE_ACTION,0,0}, E },
         { {O_POLL,0,0}, {O_POLL,0,0}, E } } },
     /* pending actions fan out after ready: the holder creates two more, hands them over, releases its own */
@@ -280,7 +280,7 @@ static void setup(void)
     parsec_taskpool_t *t = calloc(1, sizeof(*t)); PARSEC_OBJ_CONSTRUCT_WRELEASE(t, parsec_taskpool_t, my_release);
 }
 /* scenarios that only the thorough tier runs (same shapes as others, kept out of the quick tier for its time budget) */
-static const char *thorough_only[] = { "ptg_add_then_ready", "actions_fanout", "set_runtime_actions0_vs_ready", "set_runtime_actions_then_release", NULL };
+static const char *thorough_only[] = { "ptg_add_then_ready", "actions_fanout", "set_runtime_actions0_vs_ready", "set_runtime_actions_then_release", "dtd_insert_then_ready", NULL };
 int main(int argc, char **argv)
 {
     int quick = getenv("C10_QUICK") && atoi(getenv("C10_QUICK")), n = 0;
